@@ -47,6 +47,8 @@ type Profile struct {
 	ForeignFinalizerPct int           // percent of Jobs created with a finalizer of some other tool, deleted later, the foreign finalizer released after that
 	DeleteNewest        int           // number of user operations deleting the newest scheduled Job of a JobConfig
 	ClearKillPct        int           // percent of kills followed later by an update that removes spec.killTimestamp again (re-applied manifest)
+	CrashAfterDeletePct int           // percent of user deletions followed 0-3 s later by a crash and restart of the controller process (at most two per case)
+	EditTTLPct          int           // percent of Jobs whose spec.ttlSecondsAfterFinished the user changes later (raised to an hour, or lowered to 0)
 	ForceRemovePct      int           // percent of Jobs whose finalizers are stripped by the user before deleting them (the object disappears while active)
 }
 
@@ -68,6 +70,7 @@ func pick64(r *rand.Rand, l []int64) int64 { return l[r.Intn(len(l))] }
 // Gen generates JobConfigs, Jobs and user operations. All user writes go through the real webhooks.
 func Gen(r *rand.Rand, p Profile) *Workload {
 	wl := &Workload{}
+	crashOps := 0
 	if len(p.Namespaces) == 0 {
 		p.Namespaces = []string{"default"}
 	}
@@ -270,6 +273,11 @@ func Gen(r *rand.Rand, p Profile) *Workload {
 				}
 				if _, err := w.User.Kubernetes().CoreV1().Pods(obj.Namespace).Create(context.Background(), pod, metav1.CreateOptions{}); err == nil {
 					w.Mon.MarkForeign(obj.Namespace, obj.Name)
+					if w.Rnd.Intn(3) == 0 {
+						// the foreign Pod sits on a dead node: its deletion was requested but never completes
+						// (the simulated node only runs Pods of the job controller), it stays terminating
+						_ = w.User.Kubernetes().CoreV1().Pods(obj.Namespace).Delete(context.Background(), pod.Name, metav1.DeleteOptions{})
+					}
 				}
 			}})
 		}
@@ -317,6 +325,19 @@ func Gen(r *rand.Rand, p Profile) *Workload {
 				}
 			}})
 		}
+		if r.Intn(100) < p.EditTTLPct {
+			editAt := at + time.Duration(5+r.Intn(60))*time.Second
+			ttl := []int64{3600, 3600, 0, 45}[r.Intn(4)]
+			wl.Ops = append(wl.Ops, UserOp{At: editAt, Name: fmt.Sprintf("set ttlSecondsAfterFinished of %s to %d", name, ttl), Do: func(w *World) {
+				jobs := w.User.Furiko().ExecutionV1alpha1().Jobs(obj.Namespace)
+				if cur, err := jobs.Get(context.Background(), obj.Name, metav1.GetOptions{}); err == nil {
+					cur.Spec.TTLSecondsAfterFinished = pointer.Int64(ttl)
+					if _, err := jobs.Update(context.Background(), cur, metav1.UpdateOptions{}); err != nil && !strings.Contains(err.Error(), "modified") {
+						w.Mon.Notes = append(w.Mon.Notes, "ttl edit refused: "+err.Error())
+					}
+				}
+			}})
+		}
 		if r.Intn(100) < p.ForeignFinalizerPct {
 			j.Finalizers = []string{"example.com/hold"}
 			delAt := at + time.Duration(5+r.Intn(90))*time.Second
@@ -361,6 +382,12 @@ func Gen(r *rand.Rand, p Profile) *Workload {
 			wl.Ops = append(wl.Ops, UserOp{At: delAt, Name: "delete " + name, Do: func(w *World) {
 				_ = w.User.Furiko().ExecutionV1alpha1().Jobs(obj.Namespace).Delete(context.Background(), obj.Name, metav1.DeleteOptions{})
 			}})
+			if r.Intn(100) < p.CrashAfterDeletePct && crashOps < 2 {
+				crashOps++
+				wl.Ops = append(wl.Ops, UserOp{At: delAt + time.Duration(r.Intn(4))*time.Second, Name: "crash the controller process (after the deletion of " + name + ")", Do: func(w *World) {
+					w.Crash()
+				}})
+			}
 		}
 	}
 	return wl
